@@ -6,6 +6,11 @@ State: `running`, the count `ticks`, the tick interval `iv`, the device's system
 (`self.delay 'pause'`: `resume = some r`).  Configuration: direction, start/end/max value, restart_on_complete.
 Time is `Nat` ticks.  Observations are the `timer_<name>_*` events with the `ticks` argument they carry.
 
+Late deliveries: `Op.stall d` moves the clock while the loop does not run (`slack` = time blocked since the loop was last
+idle); afterwards the system timer runs late, once per missed interval, back to back, each run advancing `arm` by exactly
+one interval (`PeriodicTask._run`: `_last_call += interval`), and `Op.to` (the loop going idle) is impossible before the
+schedule has caught up.  A late pause end starts the timer — and a new schedule — at the instant it actually runs.
+
 `jump`/`set_tick_interval`/`change_tick_interval` re-create the system timer even when the timer is not running; its
 first run then finds `running = False`, removes it and posts nothing — `Op.to` performs that silent run when time passes it.
 `timer_complete` with `restart_on_complete` restarts through `restart()`; if the start value itself is at/past the end
@@ -30,6 +35,11 @@ structure T where
   arm : Option Nat := none
   resume : Option Nat := none
   now : Nat := 0
+  /-- ghost: for how long the loop has been blocked (stalled) since it was last idle -/
+  slack : Nat := 0
+  /-- ghost: the instant the system timer (a `PeriodicTask`) was created, and how often it has run since -/
+  t0 : Nat := 0
+  cnt : Nat := 0
 deriving Repr, DecidableEq
 
 inductive Ev | started | stopped | paused | complete | tick | added | subtracted | diverge
@@ -44,9 +54,11 @@ deriving Repr, DecidableEq
 inductive Op
   | start | stop | pause (ms : Nat) | add (v : Int) | sub (v : Int) | jump (v : Int) | reset | restart
   | setIv (k : Nat) | chIv (f : Nat)
-  | to (t : Nat)      -- time passes (not beyond an observable timer)
+  | to (t : Nat)      -- time passes (not beyond an observable timer): the loop is idle until `t`
+  | stall (d : Nat)   -- something blocks the loop for `d` ticks: the clock moves on, nothing runs (deliveries will be late)
   | clock             -- the system timer runs `_timer_tick` while the timer is running
   | resumeFire        -- the 'pause' delay runs `self.start`
+  | removed           -- the owning mode stops: `Mode._finish_stop` → `device_removed_from_mode` = `stop()` (+ control events off)
 deriving Repr, DecidableEq
 
 /-- `_check_for_done`'s condition -/
@@ -73,8 +85,8 @@ def doComplete (c : Cfg) (s : T) : T × List Obs :=
   if c.roc then
     -- restart(): reset() = jump(start_value) (system timer re-created, `_check_for_done`), not running -> start()
     let k := clip c c.start
-    if done c k then ({ s1 with ticks := k, arm := some s.now }, o ++ [⟨.diverge, k⟩])
-    else ({ s1 with ticks := k, running := true, arm := some s.now }, o ++ [⟨.started, k⟩, ⟨.tick, k⟩])
+    if done c k then ({ s1 with ticks := k, arm := some s.now, t0 := s.now, cnt := 0 }, o ++ [⟨.diverge, k⟩])
+    else ({ s1 with ticks := k, running := true, arm := some s.now, t0 := s.now, cnt := 0 }, o ++ [⟨.started, k⟩, ⟨.tick, k⟩])
   else (s1, o)
 
 /-- `_check_for_done()` after the count changed: complete, or nothing -/
@@ -84,15 +96,16 @@ def checkDone (c : Cfg) (s : T) : T × List Obs := if done c s.ticks then doComp
 def doStart (c : Cfg) (s : T) : T × List Obs :=
   if s.running then (s, [])
   else if done c s.ticks then doComplete c s
-  else ({ s with running := true, resume := none, arm := some s.now }, [⟨.started, s.ticks⟩, ⟨.tick, s.ticks⟩])
+  else ({ s with running := true, resume := none, arm := some s.now, t0 := s.now, cnt := 0 }, [⟨.started, s.ticks⟩, ⟨.tick, s.ticks⟩])
 
 /-- `jump(v)`: set the count (clipped), re-create the system timer, `_check_for_done` -/
 def doJump (c : Cfg) (s : T) (v : Int) : T × List Obs :=
-  checkDone c { s with ticks := clip c v, arm := some s.now }
+  checkDone c { s with ticks := clip c v, arm := some s.now, t0 := s.now, cnt := 0 }
 
 def step (c : Cfg) (s : T) : Op → Option (T × List Obs)
   | .start => some (doStart c s)
   | .stop => some (doStop s)
+  | .removed => some (doStop s)
   | .pause ms =>
     -- running False, system timer removed, paused event; a delay only for ms > 0 (an older one stays otherwise)
     some ({ s with running := false, arm := none, resume := if ms = 0 then s.resume else some (s.now + ms) },
@@ -114,22 +127,25 @@ def step (c : Cfg) (s : T) : Op → Option (T × List Obs)
       if done c r.1.ticks then let r2 := doComplete c r.1; some (r2.1, r.2 ++ r2.2)
       else some (r.1, r.2 ++ [⟨.tick, r.1.ticks⟩])
     else let r2 := doStart c r.1; some (r2.1, r.2 ++ r2.2)
-  | .setIv k => some ({ s with iv := k, arm := some s.now }, [])
-  | .chIv f => some ({ s with iv := s.iv * f, arm := some s.now }, [])
+  | .setIv k => some ({ s with iv := k, arm := some s.now, t0 := s.now, cnt := 0 }, [])
+  | .chIv f => some ({ s with iv := s.iv * f, arm := some s.now, t0 := s.now, cnt := 0 }, [])
   | .to t =>
     if s.now ≤ t ∧ t ≤ s.resume.getD t ∧ (s.running = true → t ≤ (s.arm.map (· + s.iv)).getD t) then
       -- a system timer left armed on a non-running timer runs silently and removes itself
       let arm := if s.running then s.arm else (match s.arm with
         | some a => if a + s.iv ≤ t then none else some a
         | none => none)
-      some ({ s with now := t, arm := arm }, [])
+      some ({ s with now := t, arm := arm, slack := 0 }, [])
     else none
+  | .stall d => some ({ s with now := s.now + d, slack := s.slack + d }, [])
   | .clock =>
     match s.arm with
     | none => none
     | some a =>
       if s.running ∧ a + s.iv ≤ s.now then
-        let s1 := { s with arm := some (a + s.iv), ticks := bump c s.ticks }
+        -- `PeriodicTask._run`: `_last_call += interval` (the instant this run was DUE, not `now`): a late run does not
+        -- shift the schedule, runs missed during a stall follow back to back
+        let s1 := { s with arm := some (a + s.iv), cnt := s.cnt + 1, ticks := bump c s.ticks }
         -- `_post_tick_events`: complete, or the tick event
         if done c s1.ticks then some (doComplete c s1) else some (s1, [⟨.tick, s1.ticks⟩])
       else none
@@ -183,8 +199,10 @@ def parseOp : List String → Option Op
   | ["setiv", k] => do let k ← k.toNat?; if k == 0 then none else some (.setIv k)
   | ["chiv", f] => do let f ← f.toNat?; if f == 0 then none else some (.chIv f)
   | ["to", t] => t.toNat?.map .to
+  | ["stall", d] => d.toNat?.map .stall
   | ["clock"] => some .clock
   | ["resume"] => some .resumeFire
+  | ["removed"] => some .removed
   | _ => none
 
 def driverStep (d : DSt) (toks : List String) : DSt × String :=
